@@ -499,7 +499,9 @@ class NumberMapper(Mapper):
             "multiplesOf": value.multiplesOf,
             "minimum": get_min(value),
             "maximum": get_max(value),
-            "exclusiveMaximum": value.exclusiveMaximum,
+            "exclusiveMaximum": value.exclusiveMaximum
+            if value.maximum is not None
+            else None,
         }
         return {k: v for k, v in params.items() if v is not None}
 
